@@ -10,7 +10,7 @@ import (
 )
 
 func init() {
-	register(&Rule{ID: "R-GOSHARED", Min: 4, Run: ruleGoShared,
+	register(&Rule{ID: "R-GOSHARED", Min: 3, Run: ruleGoShared,
 		Doc: "every variable of the spawning function that a go closure writes (directly, or an element/field through it) is written either at an element indexed by the goroutine's own parameter, or between Lock and Unlock of a mutex, and is read by the spawner only after a join (WaitGroup.Wait or a channel receive) that follows the go statement; a goroutine writes fields of a captured receiver only under a mutex"})
 
 	mutant(Mutant{Rule: "R-GOSHARED", Name: "merge-without-lock", File: "execution/exchange/coalesce.go",
